@@ -89,4 +89,68 @@ theorem extendDirectives_nil_nodup (l : List IDirectiveDef) (hl : (l.map (·.nam
     extendDirectives [] l = l := by
   simpa using extendDirectives_append_fresh [] l hl (by simp)
 
+/-! ### the executable check `equivB` decides `≃` -/
+
+theorem typeDef?_eq_none_of_not_mem (s : Schema) (n : String) (h : n ∉ typeNames s) : s.typeDef? n = none := by
+  simp only [Schema.typeDef?, List.find?_eq_none]
+  intro t ht hn
+  exact h (List.mem_map.mpr ⟨t, ht, by simpa using hn⟩)
+
+theorem directiveDef?_eq_none_of_not_mem (s : Schema) (n : String) (h : n ∉ directiveNames s) :
+    s.directiveDef? n = none := by
+  simp only [Schema.directiveDef?, List.find?_eq_none]
+  intro t ht hn
+  exact h (List.mem_map.mpr ⟨t, ht, by simpa using hn⟩)
+
+theorem viewType_eq_none_of_not_mem (s : Schema) (n : String) (h : n ∉ typeNames s) : viewType s n = none := by
+  simp [viewType, typeDef?_eq_none_of_not_mem s n h]
+
+theorem viewDirective_eq_none_of_not_mem (s : Schema) (n : String) (h : n ∉ directiveNames s) :
+    viewDirective s n = none := by
+  simp [viewDirective, directiveDef?_eq_none_of_not_mem s n h]
+
+theorem implementsB_true (s : Schema) (i o : String) (h : implementsB s i o = true) :
+    i ∈ ifaceNames s ∧ o ∈ typeNames s := by
+  simp only [implementsB, Schema.objectImplementers, List.contains_iff_mem, List.mem_map, List.mem_filter] at h
+  obtain ⟨t, ⟨ht, hp⟩, rfl⟩ := h
+  simp only [Bool.and_eq_true, List.contains_iff_mem] at hp
+  exact ⟨List.mem_flatMap.mpr ⟨t, ht, hp.2⟩, List.mem_map.mpr ⟨t, ht, rfl⟩⟩
+
+theorem implementsB_false_of_not_mem (s : Schema) (i o : String) (h : i ∉ ifaceNames s ∨ o ∉ typeNames s) :
+    implementsB s i o = false := by
+  cases hb : implementsB s i o with
+  | false => rfl
+  | true =>
+    have := implementsB_true s i o hb
+    rcases h with h | h
+    · exact absurd this.1 h
+    · exact absurd this.2 h
+
+theorem equivB_iff (a b : Schema) : equivB a b = true ↔ a ≃ b := by
+  constructor
+  · intro h
+    simp only [equivB, Bool.and_eq_true, List.all_eq_true, beq_iff_eq] at h
+    obtain ⟨⟨⟨ht, hd⟩, hr⟩, hi⟩ := h
+    refine ⟨fun n => ?_, fun n => ?_, fun k => ?_, fun i o => ?_⟩
+    · by_cases hn : n ∈ typeNames a ++ typeNames b
+      · exact ht n hn
+      · rw [viewType_eq_none_of_not_mem a n (fun h => hn (List.mem_append_left _ h)),
+          viewType_eq_none_of_not_mem b n (fun h => hn (List.mem_append_right _ h))]
+    · by_cases hn : n ∈ directiveNames a ++ directiveNames b
+      · exact hd n hn
+      · rw [viewDirective_eq_none_of_not_mem a n (fun h => hn (List.mem_append_left _ h)),
+          viewDirective_eq_none_of_not_mem b n (fun h => hn (List.mem_append_right _ h))]
+    · exact hr k (by cases k <;> simp [allOpK])
+    · by_cases hii : i ∈ ifaceNames a ++ ifaceNames b
+      · by_cases ho : o ∈ typeNames a ++ typeNames b
+        · exact hi i hii o ho
+        · rw [implementsB_false_of_not_mem a i o (Or.inr fun h => ho (List.mem_append_left _ h)),
+            implementsB_false_of_not_mem b i o (Or.inr fun h => ho (List.mem_append_right _ h))]
+      · rw [implementsB_false_of_not_mem a i o (Or.inl fun h => hii (List.mem_append_left _ h)),
+          implementsB_false_of_not_mem b i o (Or.inl fun h => hii (List.mem_append_right _ h))]
+  · intro h
+    simp only [equivB, Bool.and_eq_true, List.all_eq_true, beq_iff_eq]
+    exact ⟨⟨⟨fun n _ => h.types n, fun n _ => h.directives n⟩, fun k _ => h.roots k⟩,
+      fun i _ o _ => h.implementers i o⟩
+
 end NitroVerif.SchemaIR
